@@ -12,39 +12,50 @@
 (* an unknown term: the load fails before the consequent is touched),       *)
 (* "bad-cons" (the consequent refers to an unknown term: the antecedent is  *)
 (* loaded, the consequent is not).  A text that Rule.parse itself refuses   *)
-(* (no `if`) changes nothing.                                               *)
+(* (no `if`) changes nothing.  The engine's vocabulary may change under    *)
+(* the rules (a variable renamed, or replaced by one of another name, the   *)
+(* number of variables unchanged): "v1-only" texts name the variable as it  *)
+(* is called in vocabulary 1, "v2-only" texts as in vocabulary 2; a load    *)
+(* consults the vocabulary as it is at the time of the load.               *)
 (***************************************************************************)
 EXTENDS Integers, Sequences, FiniteSets
 CONSTANTS NRules,
-          Texts,          \* sequence of text classes: Texts[t] \in {"good", "bad-ante", "bad-cons"}
+          Texts,          \* sequence of text classes: Texts[t] \in {"good", "bad-ante", "bad-cons", "v1-only", "v2-only"}
           KeepOnFailure   \* canary: a load that does not unload first, so that a failed load keeps the previous parse
 VARIABLES rules,          \* rules[i] = [txt, ante, cons]: index of the current text; source text of each loaded half (0: unloaded)
-          raised          \* did the last operation raise?
-rvars == <<rules, raised>>
+          raised,         \* did the last operation raise?
+          voc             \* the engine's current vocabulary: 1 or 2
+rvars == <<rules, raised, voc>>
+\* the class of a text under the vocabulary as it is now
+ClassOf(t) == IF Texts[t] = "v1-only" THEN (IF voc = 1 THEN "good" ELSE "bad-ante")
+              ELSE IF Texts[t] = "v2-only" THEN (IF voc = 2 THEN "good" ELSE "bad-ante") ELSE Texts[t]
 
 IsLoaded(r) == r.ante # 0 /\ r.cons # 0
 \* Rule.load: deactivate; antecedent.load (unload, parse, may raise); consequent.load (unload, parse, may raise)
 LoadOne(r) ==
-  LET c == Texts[r.txt] IN
+  LET c == ClassOf(r.txt) IN
   IF c = "bad-ante" THEN [r EXCEPT !.ante = IF KeepOnFailure THEN @ ELSE 0]
   ELSE IF c = "bad-cons" THEN [r EXCEPT !.ante = r.txt, !.cons = IF KeepOnFailure THEN @ ELSE 0]
   ELSE [r EXCEPT !.ante = r.txt, !.cons = r.txt]
-Fails(r) == Texts[r.txt] # "good"
+Fails(r) == ClassOf(r.txt) # "good"
 UnloadOne(r) == [r EXCEPT !.ante = 0, !.cons = 0]
 
-RInit == rules = [i \in 1..NRules |-> [txt |-> 1, ante |-> 0, cons |-> 0]] /\ raised = FALSE
-Parse(i, t)   == rules' = [rules EXCEPT ![i].txt = t] /\ raised' = FALSE          \* the parsed halves are left as they are
-ParseRefused(i) == UNCHANGED rules /\ raised' = TRUE
-Load(i)       == rules' = [rules EXCEPT ![i] = LoadOne(@)] /\ raised' = Fails(rules[i])
-Unload(i)     == rules' = [rules EXCEPT ![i] = UnloadOne(@)] /\ raised' = FALSE
+RInit == rules = [i \in 1..NRules |-> [txt |-> 1, ante |-> 0, cons |-> 0]] /\ raised = FALSE /\ voc = 1
+Parse(i, t)   == rules' = [rules EXCEPT ![i].txt = t] /\ raised' = FALSE /\ UNCHANGED voc         \* the parsed halves are left as they are
+ParseRefused(i) == UNCHANGED <<rules, voc>> /\ raised' = TRUE
+Load(i)       == rules' = [rules EXCEPT ![i] = LoadOne(@)] /\ raised' = Fails(rules[i]) /\ UNCHANGED voc
+Unload(i)     == rules' = [rules EXCEPT ![i] = UnloadOne(@)] /\ raised' = FALSE /\ UNCHANGED voc
 \* RuleBlock.load_rules: every rule is unloaded and loaded, the errors are collected and raised together at the end
-LoadRules     == rules' = [i \in 1..NRules |-> LoadOne(UnloadOne(rules[i]))] /\ raised' = (\E i \in 1..NRules : Fails(rules[i]))
-UnloadRules   == rules' = [i \in 1..NRules |-> UnloadOne(rules[i])] /\ raised' = FALSE
+LoadRules     == rules' = [i \in 1..NRules |-> LoadOne(UnloadOne(rules[i]))] /\ raised' = (\E i \in 1..NRules : Fails(rules[i])) /\ UNCHANGED voc
+UnloadRules   == rules' = [i \in 1..NRules |-> UnloadOne(rules[i])] /\ raised' = FALSE /\ UNCHANGED voc
+\* the engine's vocabulary changes; rules already loaded hold the objects they were built from and stay as they are
+Rename        == voc' = 3 - voc /\ raised' = FALSE /\ UNCHANGED rules
 ReloadRules   == LoadRules                                                          \* unload_rules, then load_rules
 
 \* ---- what must hold ---------------------------------------------------------------------------------------
 \* a rule reports loaded only if both halves come from one text, and that text loads
-LoadedIsConsistent == \A i \in 1..NRules : IsLoaded(rules[i]) => (rules[i].ante = rules[i].cons /\ Texts[rules[i].ante] = "good")
+\* (whether it loaded is judged under the vocabulary of the time of the load: see the two action properties)
+LoadedIsConsistent == \A i \in 1..NRules : IsLoaded(rules[i]) => (rules[i].ante = rules[i].cons /\ Texts[rules[i].ante] \in {"good", "v1-only", "v2-only"})
 \* C16: after a load of rule i that failed, rule i does not report loaded
 NotLoadedAfterFailedLoad(i) == (raised' /\ Fails(rules[i])) => ~IsLoaded(rules'[i])
 \* after a load that succeeded, the rule is loaded from its current text
